@@ -304,7 +304,6 @@ class Scenario:
         self.ctx = {v: contextvars.copy_context() for v in self.insts}
         self.serv = {n: c['serv'] for n, c in dict(world['certs']).items()}   # changes with heal()
         self.req_start = {}    # v -> number of requests before its current validation started
-        self.raised = []       # validations that ended with ValueError (counted as rejections)
         self.dead = set()      # instances whose validation re-requested a certificate it was already resolving
         self.out = []
         self.cur = {}
@@ -337,11 +336,6 @@ class Scenario:
                     continue
                 if t.cancelled():
                     r = 'cancelled'
-                elif isinstance(t.exception(), ValueError):
-                    # a signature type that does not fit the certificate's key makes the key import raise ValueError
-                    # out of the validator: not an acceptance - counted as a rejection (see TrustChain.tla, LinkDevs)
-                    r = 'F'
-                    self.raised.append((v, self.cur[v], '%s: %s' % (type(t.exception()).__name__, t.exception())))
                 elif t.exception() is not None:
                     r = 'exc:' + type(t.exception()).__name__
                 else:
